@@ -56,7 +56,12 @@ class LBatch(A.BatchBase):
         p = self.plan
         items = list(self.items)
         ra = p.get("raise_at")
+        cs = p.get("cancel_self_at")
         for i, it in enumerate(items):
+            if cs is not None and cs == i:
+                # the body cancels its own batch (e.g. a service timeout) and returns normally
+                self.cancel(SimError("E:selfcancel"))
+                return
             if ra is not None and ra == i:
                 self._raise(p)
             mode = p.get("set", "all")
@@ -171,6 +176,8 @@ class C11(object):
                     p["base"] = True
             if rng.random() < 0.25:
                 p["new_items"] = rng.randint(1, 2)
+            if rng.random() < 0.12:
+                p["cancel_self_at"] = rng.randint(0, 2)
             plans.append(p)
         ops = []
         for _ in range(rng.randint(2, 14)):
@@ -202,9 +209,15 @@ class C11(object):
             p = rb.plan
             n = len(rb.items)
             ra = p.get("raise_at")
+            cs = p.get("cancel_self_at")
             raised = None
             setvals = {}
+            selfc = False
             for i in range(n):
+                if cs is not None and cs == i:
+                    raised = "E:selfcancel"
+                    selfc = True
+                    break
                 if ra is not None and ra == i:
                     raised = "fe"
                     break
@@ -213,6 +226,13 @@ class C11(object):
                     continue
                 setvals[i] = ("E", "ie") if i in p.get("item_errors", []) else ("V", None)
             created = 0
+            if selfc:
+                rb.err = raised
+                rb.state = "cancelled"
+                for i, ri in enumerate(rb.items):
+                    if ri["out"] is None:
+                        ri["out"] = setvals[i] if i in setvals else ("E", raised)
+                return 0
             if raised is None:
                 created = p.get("new_items", 0)
                 if ra is not None and ra >= n:
